@@ -2,6 +2,7 @@ import TypifyModel.Proofs.C01
 import TypifyModel.Proofs.C01Findings
 import TypifyModel.Proofs.Dispatch
 import TypifyModel.Proofs.DispatchFuel
+import TypifyModel.Proofs.DispatchSourceAll
 open TypifyModel.C01
 #print axioms wf_compiles
 #print axioms wf_unique_items
@@ -33,3 +34,14 @@ open TypifyModel.C01
 #print axioms TypifyModel.Dispatch.again_decreases
 #print axioms TypifyModel.Dispatch.resolve_three_suffices
 #print axioms TypifyModel.Dispatch.resolve_total
+#print axioms TypifyModel.Dispatch.source_arms_as_read
+#print axioms TypifyModel.Dispatch.typed_arms_agree
+#print axioms TypifyModel.Dispatch.typed_arms_callees
+#print axioms TypifyModel.Dispatch.first_arm_nullable
+#print axioms TypifyModel.Dispatch.rewrite_arms_callees
+#print axioms TypifyModel.Dispatch.rewrite_arms_agree_multi
+#print axioms TypifyModel.Dispatch.rewrite_arms_agree_none
+#print axioms TypifyModel.Dispatch.rewrite_arms_agree_single
+#print axioms TypifyModel.Dispatch.armsRewrite_is_rwModel
+#print axioms TypifyModel.Dispatch.subschema_arms_agree
+#print axioms TypifyModel.Dispatch.soleArm_is_soleArmB
